@@ -183,22 +183,34 @@ def boundary_acceptance(case, rep):
         pr = tp.spaces.Points.empty()
     n = 25
     torch.manual_seed(case["id"])
-    for how in ("random", "grid"):
+    hows = ["random", "grid"]
+    if len(envs) <= 1:
+        hows += ["random-density", "grid-density"]     # density sampling is defined for one parameter row
+    for how in hows:
         try:
             if how == "random":
                 s = common.call_with_timeout(3, B.sample_random_uniform, n=n, params=pr)
-            else:
+            elif how == "grid":
                 s = common.call_with_timeout(3, B.sample_grid, n=n, params=pr)
+            elif how == "random-density":
+                s = common.call_with_timeout(3, B.sample_random_uniform, d=6.0, params=pr)
+            else:
+                s = common.call_with_timeout(3, B.sample_grid, d=6.0, params=pr)
         except common.CallTimeout:
             rep.count("bdry-sampler-timeout:" + how)   # non-termination belongs to C01
             continue
         except Exception:
             rep.count("bdry-sampler-raised:" + how)   # sampling defects belong to C01/C02
             continue
-        if len(s) != n * max(1, len(envs)):
-            rep.count("bdry-sampler-wrong-count:" + how)
-            continue
-        rp = tp.spaces.Points(torch.repeat_interleave(pr.as_tensor, n, dim=0), pr.space) if params else pr
+        if how.endswith("density"):
+            if len(s) == 0:
+                continue
+            rp = tp.spaces.Points(pr.as_tensor.repeat(len(s), 1), pr.space) if params else pr
+        else:
+            if len(s) != n * max(1, len(envs)):
+                rep.count("bdry-sampler-wrong-count:" + how)
+                continue
+            rp = tp.spaces.Points(torch.repeat_interleave(pr.as_tensor, n, dim=0), pr.space) if params else pr
         if not torch.isfinite(s.as_tensor).all():
             rep.count("bdry-sampler-nan:" + how)
             continue
@@ -212,6 +224,102 @@ def boundary_acceptance(case, rep):
                      f"e.g. point {s.as_tensor[i].tolist()} (parameter row {i // n})",
                      dict(dom=case["dom"], params=params, envs=envs, how=how, n=n, seed=case["id"]),
                      finding=None)
+
+
+def _param_points(tp, torch, params, envs):
+    if not params:
+        return tp.spaces.Points.empty()
+    pspace = None
+    for p_ in params:
+        s_ = tp.spaces.R1(p_)
+        pspace = s_ if pspace is None else pspace * s_
+    return tp.spaces.Points(torch.tensor([[float(Fr(env[p_][0])) for p_ in params] for env in envs], dtype=torch.float32), pspace)
+
+
+def operand_boundary_prepare(case, rep):
+    """Boolean nodes: a point of an operand's boundary that lies strictly inside (intersection, cut-out
+    part) resp. strictly outside (union, cut) the partner is a boundary point of the composite and must be
+    accepted by the composite's boundary test.  'strictly' is decided by the exact model with margin.
+    Phase 1: sample the operands' boundaries, return the driver requests."""
+    tp = common.use_repo()
+    import torch
+    if case["mode"] != "bdry":
+        return []
+    node = geomgen.from_json(case["dom"])
+    inner = node.kids[0]
+    if inner.kind not in ("union", "cut", "inter"):
+        return []
+    a, b = inner.kids
+    params = case["params"]
+    envs = []
+    for _, env in case["rows"]:
+        if env not in envs:
+            envs.append(env)
+    pr = _param_points(tp, torch, params, envs)
+    n = 20
+    torch.manual_seed(case["id"] + 7)
+    var = inner.vars()[0]
+    jobs = []
+    for which, src, partner in (("a", a, b), ("b", b, a)):
+        try:
+            S = geomgen.Node("bdry", None, [], [src]).to_tp(tp)
+            s = common.call_with_timeout(3, S.sample_random_uniform, n=n, params=pr)
+        except Exception:
+            rep.count("operand-bdry-sampler-failed")
+            continue
+        if len(s) != n * max(1, len(envs)) or not torch.isfinite(s.as_tensor).all():
+            rep.count("operand-bdry-sampler-failed")
+            continue
+        rows = s.as_tensor.tolist()
+        lines = []
+        for i, r in enumerate(rows):
+            env = envs[i // n] if params else {}
+            lines.append(f"contains {ATOL} {RTOL} {BATOL} {partner.tokens()} {env_tokens({var: [Fr(x) for x in r]})} "
+                         f"{env_tokens({k: [Fr(x) for x in v_] for k, v_ in env.items()})}")
+        jobs.append(dict(which=which, s=s, rows=rows, lines=lines, envs=envs, pr=pr, n=n, kind=inner.kind))
+    return jobs
+
+
+def operand_boundary_finish(case, job, replies, rep):
+    tp = common.use_repo()
+    import torch
+    node = geomgen.from_json(case["dom"])
+    B = node.to_tp(tp)
+    params = case["params"]
+    which, s, rows, envs, pr, n, kind = job["which"], job["s"], job["rows"], job["envs"], job["pr"], job["n"], job["kind"]
+    want_inside = (kind == "inter") or (kind == "cut" and which == "b")
+    keep = []
+    for i, rl in enumerate(replies):
+        bb, m = rl.split()
+        if bb == "none" or Fr(m) <= MARGIN * 4:
+            continue
+        if (bb == "1") == want_inside:
+            keep.append(i)
+    if not keep:
+        return
+    rp = tp.spaces.Points(torch.repeat_interleave(pr.as_tensor, n, dim=0), pr.space) if params else pr
+    ok = B._contains(s, rp).reshape(-1)
+    rep.count("operand-boundary-points", len(keep))
+    bad = [i for i in keep if not bool(ok[i])]
+    if bad:
+        i = bad[0]
+        rep.fail(f"{len(bad)} of {len(keep)} points of operand {which}'s boundary that lie strictly "
+                 f"{'inside' if want_inside else 'outside'} the partner are rejected by the {kind} boundary's membership test; "
+                 f"e.g. point {rows[i]} (parameter row {i // n})",
+                 dict(dom=case["dom"], params=params, envs=envs, how="operand-" + which, n=n, seed=case["id"]))
+
+
+def operand_boundary_all(cases, rep):
+    jobs, lines = [], []
+    for cs in cases:
+        for job in operand_boundary_prepare(cs, rep):
+            jobs.append((cs, job, len(lines), len(job["lines"])))
+            lines += job["lines"]
+    if not lines:
+        return
+    replies = common.run_driver("C05", lines)
+    for cs, job, a, n in jobs:
+        operand_boundary_finish(cs, job, replies[a:a + n], rep)
 
 
 def run(ctx, rep, cases=None):
@@ -266,6 +374,7 @@ def run(ctx, rep, cases=None):
             else:
                 rep.count("within-margin(skipped)")
         boundary_acceptance(cs, rep)
+    operand_boundary_all(cases, rep)
 
 
 def replay(ctx, obj):
@@ -278,4 +387,5 @@ def replay(ctx, obj):
     else:
         case = dict(id=inp.get("seed", 0), mode="bdry", dom=inp["dom"], params=inp["params"], rows=[({}, e) for e in inp["envs"]])
         boundary_acceptance(case, rep)
+        operand_boundary_all([case], rep)
     return common.finish(ctx, rep, lean)
